@@ -1,0 +1,58 @@
+//go:build verif
+
+// Verification hook for the one-hop-path checks (build tag verif): runs the real
+// newBFDSend / bfdSend.Send of an external interface of a dataplane built by
+// VerifNewDataPlane and returns the packet that was handed to the interface's link.
+// Add-only; no behaviour change.
+
+package router
+
+import (
+	"fmt"
+
+	"github.com/gopacket/gopacket/layers"
+
+	"github.com/scionproto/scion/pkg/addr"
+	"github.com/scionproto/scion/router/control"
+)
+
+// VerifHopFieldDefaultExpTime exposes hopFieldDefaultExpTime.
+const VerifHopFieldDefaultExpTime = hopFieldDefaultExpTime
+
+// VerifBFDSendOHP builds the BFD sender of the inter-AS link on interface ifID towards
+// remoteIA exactly as newExternalInterfaceBFD does (newBFDSend with isIntraAS = false and a
+// hasher from the dataplane's MAC factory), calls Send(msg) once, and returns the bytes
+// that reached the (fake) link of that interface.
+func (v *VerifDataPlane) VerifBFDSendOHP(ifID uint16, remoteIA addr.IA,
+	localHost, remoteHost addr.Host, msg *layers.BFD) ([]byte, error) {
+
+	d := v.dp
+	link, ok := d.interfaces[ifID].(*VerifLink)
+	if !ok || link == nil {
+		return nil, fmt.Errorf("interface %d has no fake link", ifID)
+	}
+	// bfdSend.Send takes its buffer from the packet pool; the socket-less dataplane has an
+	// empty one. Give it a pool holding one buffer for the duration of the call.
+	saved := d.packetPool
+	pool := makePacketPool(1, saved.headroom)
+	pool.pool <- (&Packet{}).init(&[bufSize]byte{})
+	d.packetPool = pool
+	defer func() { d.packetPool = saved }()
+
+	info := control.LinkInfo{
+		Local:  control.LinkEnd{IA: d.localIA},
+		Remote: control.LinkEnd{IA: remoteIA},
+	}
+	b, err := newBFDSend(d, info, localHost, remoteHost, ifID, false, d.macFactory())
+	if err != nil {
+		return nil, err
+	}
+	before := len(link.Sent)
+	if err := b.Send(msg); err != nil {
+		return nil, err
+	}
+	if len(link.Sent) != before+1 {
+		return nil, fmt.Errorf("bfdSend.Send handed %d packets to the link", len(link.Sent)-before)
+	}
+	return link.Sent[before].Raw, nil
+}
